@@ -3,3 +3,4 @@ pub mod engine;
 pub mod models;
 pub mod props;
 pub mod targets;
+pub mod fuzz;
